@@ -17,7 +17,7 @@ from statham.schema.elements import (
 from statham.schema.elements.meta import ObjectMeta
 from statham.schema.helpers import remove_duplicates
 from statham.schema.property import _Property
-from statham.serializers.orderer import get_object_classes
+from statham.serializers.orderer import get_children, get_object_classes
 
 
 def serialize_json(
@@ -45,12 +45,20 @@ def serialize_json(
         # `Nothing()` is the boolean schema `false`, which has no keywords
         # to attach definitions to (and no children to define).
         return primary_schema
+    # The primary element is the top-level schema, but the other elements
+    # may refer to it: it then needs a definition for those references.
+    primary_is_referenced = any(
+        child is primary
+        for object_class in object_classes
+        if object_class is not primary
+        for child in get_children(object_class)
+    )
     schema: Dict[str, Any] = {
         **primary_schema,
         "definitions": {
             object_class.__name__: serialize(object_class)
             for object_class in object_classes
-            if object_class is not primary
+            if object_class is not primary or primary_is_referenced
         },
     }
     if definitions:
